@@ -68,7 +68,7 @@ func TestMain(m *testing.M) {
 	harness.Run(&harness.Prop{
 		ID:             "C19",
 		Rule:           "the shipped handleMessages/handleClientMessages/handleServerMessages/keepCircularQueueUpdated of the proxy (in-package harness, package globals set as start() sets them) over two harness-owned net.Conn values whose Read is a scheduling and chunking choice point and whose Write records; a status thread calls ReportFeed.Status() twice at scheduler-chosen moments. Client streams: frame whose payload reads '<b>', HTML-looking junk before a frame, CRC-valid MSM frames with short or inconsistent content before a frame, two frames, plain junk; server streams: text and binary. plus scenarios in which one peer stops reading (its Write blocks) while the other direction has traffic, and bursts of 2047, 2048, 2049 and 4096 bytes (the relay's read buffer is 2048 bytes) in both directions under the default schedule, and two sessions over the same handler, queue and report feed, one after the other and at the same time (first session ending at a frame boundary, inside a frame, or in junk). All chunkings and interleavings in the unbounded pass where it completes, otherwise deviation bound 2. Oracle: at quiescence upstream sink == client bytes and client sink == server bytes; no panic; every report's message list is (after un-escaping) the display of a prefix of the sequential framing of the client stream; the number of '<' and '>' in every report equals that of the fixed template. Non-trivial = distinct schedule trace",
-		Assumptions:    []string{"TCP is replaced by in-memory net.Conn values: Read returns what was sent in explorer-chosen chunks, a server Read with nothing left blocks until the connection is closed, the client reports EOF only after the server's bytes have reached it; the kernel's segmentation and timing are outside the check", "in the scheduler-driven scenarios the status HTTP server (go-tools dependency) is not started and ReportFeed.Status is called directly; the loopback conformance leg runs the shipped binary with its HTTP server over real TCP", "the daily RTCM log is a real dailylogger.Writer over a scratch directory; logging is disabled in most scenarios and enabled, or switched by the status thread through ReportFeed.SetLogLevel while traffic flows, in twelve of them (file handling itself belongs to the dependency)", "'HTML-escaped' is judged on '<' and '>' only, which is what Sanitise defines"},
+		Assumptions:    []string{"TCP is replaced by in-memory net.Conn values: Read returns what was sent in explorer-chosen chunks (the client's last chunk may arrive together with io.EOF once the server's bytes have been relayed, as a TLS 1.2 peer's does), a server Read with nothing left blocks until the connection is closed, the client reports EOF only after the server's bytes have reached it; the kernel's segmentation and timing are outside the check", "in the scheduler-driven scenarios the status HTTP server (go-tools dependency) is not started and ReportFeed.Status is called directly; the loopback conformance leg runs the shipped binary with its HTTP server over real TCP", "the daily RTCM log is a real dailylogger.Writer over a scratch directory; logging is disabled in most scenarios and enabled, or switched by the status thread through ReportFeed.SetLogLevel while traffic flows, in twelve of them (file handling itself belongs to the dependency)", "'HTML-escaped' is judged on '<' and '>' only, which is what Sanitise defines"},
 		Scenarios:      scenarios,
 		Post:           loopbackSessions,
 		QuickBudget:    60 * time.Second,
@@ -295,6 +295,9 @@ type conn struct {
 	// wDeadline is what SetWriteDeadline / SetDeadline last set (virtual clock);
 	// a Write still blocked at that instant fails with a timeout, as on a socket
 	wDeadline time.Time
+	// eofWithLastData, when set and true, allows the final Read to return its data
+	// together with io.EOF
+	eofWithLastData func() bool
 }
 
 func (c *conn) Read(p []byte) (int, error) {
@@ -317,7 +320,15 @@ func (c *conn) Read(p []byte) (int, error) {
 		}
 		return 0, io.EOF
 	}
-	return c.rd.Read(p)
+	n, err := c.rd.Read(p)
+	// a TLS 1.2 peer that hangs up right after its last record: crypto/tls returns
+	// that record's data together with io.EOF.  Only once the other direction has
+	// nothing left in flight (so that closing the session loses nothing), and as a
+	// deviation from the default answer.
+	if err == nil && c.rd.Pos >= len(c.rd.Data) && c.eofWithLastData != nil && c.eofWithLastData() && mcrt.Choose(2, "eof-with-last-data:"+c.name) == 1 {
+		return n, io.EOF
+	}
+	return n, err
 }
 
 func (c *conn) Write(p []byte) (int, error) {
@@ -505,6 +516,7 @@ func scenarios(tier string) []*mcrt.Scenario {
 								doneClosed = true
 								mcrt.Close(serverDone)
 							}
+							cl.eofWithLastData = func() bool { return doneClosed }
 							mcrt.Go("status", func() {
 								for i := 0; i < nstatus; i++ {
 									mcrt.Yield("status")
